@@ -14,7 +14,7 @@ RULE = ('pairs of nested values x every path that exists in either input (dictio
         'threshold_to_diff_deeper=0. The restricted result is compared with the filtered unrestricted result on the implementation, and implementation vs Lean '
         'model under the same options. distinct = distinct (t1, t2, option, paths); non-trivial = the filter removes at least one entry and keeps at least one')
 TRUSTED_BASE = ['the re module (only anchored prefix patterns ^escaped(\\[|$) are modelled)']
-ASSUMPTIONS = ['threshold_to_diff_deeper = 0 (finding F10b at the default threshold)', 'include_paths: paths of string keys and list indexes (finding F10a)',
+ASSUMPTIONS = ['threshold_to_diff_deeper = 0, or the default threshold on pairs none of whose dictionary levels is too different (finding F10b otherwise)', 'include_paths: paths of string keys and list indexes (finding F10a)',
                'keys do not contain both quote kinds or brackets (path prefix tests are textual)']
 
 
